@@ -1,8 +1,17 @@
 #!/usr/bin/env python3
-"""Fail-closed translator for the two progress formulas of mosaik/scheduler.py -> Coq (Gen/SchedulerFns.v):
+"""Fail-closed translator for the progress formulas and the step guard of mosaik/scheduler.py and mosaik/progress.py
+-> Coq (Gen/SchedulerFns.v):
 
   get_max_advance(world, sim, until)      -> get_max_advance  (the max_advance handed to step())
   advance_progress(sim, world)            -> advance_progress (the new progress of a simulator)
+  Progress._triggered_time                -> progress_triggered_time; _add_trigger / has_reached / has_passed are checked
+                                             literally against the text they are modelled from (a missing shift is zero in
+                                             every tier; the coroutine finishes as soon as _triggered_time is not None)
+  wait_for_dependencies(sim, lazy_stepping) -> wait_for_dependencies_ready: the conjunction of the awaited conditions (loops
+                                             over input_delays / successors_to_wait_for / successors appending
+                                             X.progress.has_passed(next_step, shift=d) or has_reached(next_step + d), the last
+                                             loop under `if lazy_stepping:`, then `await asyncio.gather` of the futures);
+                                             a simulator is seen as the current value of its progress
 
 Both are pure computations over a few fields of SimRunner objects followed (advance_progress) by the assignment of the
 result.  The translator accepts exactly the statement and expression forms listed below and exits with status 2 on
@@ -254,15 +263,128 @@ def advance_progress(fn):
     return out + f"  {result}.\n"
 
 
+# ---------------------------------------------------------------------------------------------------------------------
+# progress.py: Progress._triggered_time is translated; _add_trigger, has_reached, has_passed are checked literally (their
+# meaning - "the awaited coroutine finishes as soon as _triggered_time is not None, with the default shift of zeros" - is the
+# fixed text emitted below)
+ADD_TRIGGER = ["if shift is None:\n    shift = TieredInterval(*(0,) * len(self.time))",
+               "trigger_spec = (target, shift, needs_to_pass)",
+               "triggered_time = self._triggered_time(trigger_spec)",
+               "if triggered_time:\n    return triggered_time",
+               "future: asyncio.Future[TieredTime] = asyncio.Future()",
+               "self._futures.append((trigger_spec, future))",
+               "return await future"]
+
+
+def cmp_time(e, env):
+    """A > B / A >= B on TieredTime values (names of env)"""
+    if not (isinstance(e, ast.Compare) and len(e.ops) == 1 and isinstance(e.left, ast.Name) and isinstance(e.comparators[0], ast.Name)
+            and e.left.id in env and e.comparators[0].id in env): bail(e, 'comparison')
+    f = {ast.Gt: 'tgt', ast.GtE: 'tge', ast.Lt: 'tlt', ast.LtE: 'tle'}.get(type(e.ops[0]))
+    if f is None: bail(e, 'comparison operator')
+    return f'({f} {e.left.id} {e.comparators[0].id})'
+
+
+def triggered_time(fn):
+    if [a.arg for a in fn.args.args] != ['self', 'trigger_spec']: bail(fn, 'signature')
+    body = strip_doc(fn.body)
+    if len(body) != 5: bail(fn, 'body shape')
+    if ast.unparse(body[0]) != 'target, shift, needs_to_pass = trigger_spec': bail(body[0], 'unpacking')
+    if ast.unparse(body[1]) != 'time_at_dest = self.time + shift': bail(body[1], 'time at destination')
+    env = {'target', 'time_at_dest'}
+    conds = []
+    for st in body[2:4]:
+        if not (isinstance(st, ast.If) and not st.orelse and len(st.body) == 1 and ast.unparse(st.body[0]) == 'return time_at_dest'
+                and isinstance(st.test, ast.BoolOp) and isinstance(st.test.op, ast.And) and len(st.test.values) == 2): bail(st, 'branch')
+        flag, c = st.test.values
+        if is_name(flag, 'needs_to_pass'): fl = 'needs_to_pass'
+        elif isinstance(flag, ast.UnaryOp) and isinstance(flag.op, ast.Not) and is_name(flag.operand, 'needs_to_pass'): fl = '(negb needs_to_pass)'
+        else: bail(flag, 'flag')
+        conds.append(f'{fl} && {cmp_time(c, env)}')
+    if ast.unparse(body[4]) != 'return None': bail(body[4], 'fall-through')
+    return ("Definition progress_triggered_time (self_time : time) (trigger_spec : time * interval * bool) : option time :=\n"
+            "  let '(target, shift, needs_to_pass) := trigger_spec in\n  let time_at_dest := act self_time shift in\n"
+            f"  if {conds[0]} then Some time_at_dest else\n  if {conds[1]} then Some time_at_dest else None.\n")
+
+
+def progress_class(tree):
+    cls = [n for n in tree.body if isinstance(n, ast.ClassDef) and n.name == 'Progress']
+    if len(cls) != 1: raise Unsupported('class Progress not found')
+    fns = {n.name: n for n in cls[0].body if isinstance(n, (ast.FunctionDef, ast.AsyncFunctionDef))}
+    for name in ('_triggered_time', '_add_trigger', 'has_reached', 'has_passed'):
+        if name not in fns: raise Unsupported(f'Progress.{name} not found')
+    out = triggered_time(fns['_triggered_time'])
+    at = fns['_add_trigger']
+    if [a.arg for a in at.args.args] != ['self', 'target', 'shift', 'needs_to_pass']: bail(at, 'signature')
+    if [ast.unparse(x) for x in strip_doc(at.body)] != ADD_TRIGGER: bail(at, '_add_trigger differs from the modelled text')
+    out += ("(* _add_trigger (checked literally): the coroutine finishes as soon as _triggered_time is not None; a missing shift is zero in every tier *)\n"
+            "Definition progress_add_trigger_ready (self_time : time) (target : time) (shift : option interval) (needs_to_pass : bool) : bool :=\n"
+            "  let shift := match shift with Some d => d | None => zero_interval (length self_time) end in\n"
+            "  match progress_triggered_time self_time (target, shift, needs_to_pass) with Some _ => true | None => false end.\n")
+    for name, flag in (('has_reached', 'False'), ('has_passed', 'True')):
+        f = fns[name]
+        if [a.arg for a in f.args.args] != ['self', 'target', 'shift'] or [ast.unparse(d) for d in f.args.defaults] != ['None']: bail(f, 'signature')
+        b = strip_doc(f.body)
+        if len(b) != 1 or ast.unparse(b[0]) != f'return await self._add_trigger(target, shift, {flag})': bail(f, 'body')
+        out += (f"Definition progress_{name}_ready (self_time : time) (target : time) (shift : option interval) : bool :=\n"
+                f"  progress_add_trigger_ready self_time target shift {flag.lower()}.\n")
+    return out
+
+
+def wait_for_dependencies(fn):
+    """futures.append(X.progress.has_passed(next_step, shift=delay)) / has_reached(next_step + adapt) in loops over the three
+    tables, the last one under `if lazy_stepping:`, then `await asyncio.gather(*futures)`: ready iff every condition holds"""
+    if [a.arg for a in fn.args.args] != ['sim', 'lazy_stepping']: bail(fn, 'signature')
+    body = strip_doc(fn.body)
+    if len(body) < 3 or ast.unparse(body[0]) != 'futures: List[Coroutine[Any, Any, TieredTime]] = []' or ast.unparse(body[1]) != 'next_step = sim.next_steps[0]': bail(fn, 'prologue')
+    if ast.unparse(body[-1]) != 'await asyncio.gather(*futures)': bail(body[-1], 'epilogue')
+    TABLES = {'input_delays': 'input_delays', 'successors_to_wait_for': 'successors_to_wait_for', 'successors': 'successors'}
+
+    def loop(st):
+        if not (isinstance(st, ast.For) and not st.orelse and len(st.body) == 1): bail(st, 'loop')
+        it = st.iter
+        if not (isinstance(it, ast.Call) and isinstance(it.func, ast.Attribute) and it.func.attr == 'items' and not it.args
+                and isinstance(it.func.value, ast.Attribute) and is_name(it.func.value.value, 'sim') and it.func.value.attr in TABLES): bail(it, 'iterator')
+        tgt = st.target
+        if not (isinstance(tgt, ast.Tuple) and len(tgt.elts) == 2 and all(isinstance(x, ast.Name) for x in tgt.elts)): bail(tgt, 'loop variables')
+        x, d = tgt.elts[0].id, tgt.elts[1].id
+        if x in ('sim', 'next_step', 'futures') or d in ('sim', 'next_step', 'futures') or x == d: bail(tgt, 'loop variable shadows')
+        c = st.body[0]
+        if not (isinstance(c, ast.Expr) and isinstance(c.value, ast.Call) and isinstance(c.value.func, ast.Attribute) and c.value.func.attr == 'append'
+                and is_name(c.value.func.value, 'futures') and len(c.value.args) == 1 and not c.value.keywords): bail(c, 'append')
+        call = c.value.args[0]
+        if not (isinstance(call, ast.Call) and isinstance(call.func, ast.Attribute) and call.func.attr in ('has_passed', 'has_reached')
+                and is_attr(call.func.value, x, 'progress') and len(call.args) == 1): bail(call, 'awaited call')
+        a = call.args[0]
+        if is_name(a, 'next_step'): target = 'next_step'
+        elif isinstance(a, ast.BinOp) and isinstance(a.op, ast.Add) and is_name(a.left, 'next_step') and is_name(a.right, d): target = f'(act next_step {d})'
+        else: bail(a, 'target')
+        if not call.keywords: shift = 'None'
+        elif len(call.keywords) == 1 and call.keywords[0].arg == 'shift' and is_name(call.keywords[0].value, d): shift = f'(Some {d})'
+        else: bail(call, 'shift')
+        return f"map (fun pd : time * interval => let ({x}, {d}) := pd in progress_{call.func.attr}_ready {x} {target} {shift}) {TABLES[it.func.value.attr]}"
+
+    parts = []
+    for st in body[2:-1]:
+        if isinstance(st, ast.For): parts.append(loop(st)); continue
+        if isinstance(st, ast.If) and is_name(st.test, 'lazy_stepping') and not st.orelse and len(st.body) == 1:
+            parts.append(f'(if lazy_stepping then {loop(st.body[0])} else [])'); continue
+        bail(st, 'statement')
+    return ("(* a simulator is seen as the current value of its progress *)\n"
+            "Definition wait_for_dependencies_ready (input_delays successors_to_wait_for successors : list (time * interval)) (lazy_stepping : bool) (next_step : time) : bool :=\n"
+            f"  forallb (fun b : bool => b) ({' ++ '.join('(' + x + ')' for x in parts)}).\n")
+
+
 def main():
     repo, outdir = sys.argv[1], sys.argv[2]
     tree = ast.parse(open(os.path.join(repo, 'mosaik', 'scheduler.py')).read())
-    fns = {n.name: n for n in tree.body if isinstance(n, ast.FunctionDef)}
-    for name in ('get_max_advance', 'advance_progress'):
+    fns = {n.name: n for n in tree.body if isinstance(n, (ast.FunctionDef, ast.AsyncFunctionDef))}
+    for name in ('get_max_advance', 'advance_progress', 'wait_for_dependencies'):
         if name not in fns: raise Unsupported(f'function {name} not found')
-    out = ["(* generated by harness/py2coq_sched.py from mosaik/scheduler.py -- do not edit; regenerated on every run *)",
+    ptree = ast.parse(open(os.path.join(repo, 'mosaik', 'progress.py')).read())
+    out = ["(* generated by harness/py2coq_sched.py from mosaik/scheduler.py and mosaik/progress.py -- do not edit; regenerated on every run *)",
            "From Coq Require Import ZArith List Bool Arith.", "Import ListNotations.", "From MV Require Import Time.Spec Sched.GenView.", "Open Scope Z_scope.", "",
-           get_max_advance(fns['get_max_advance']), advance_progress(fns['advance_progress'])]
+           get_max_advance(fns['get_max_advance']), advance_progress(fns['advance_progress']), progress_class(ptree), wait_for_dependencies(fns['wait_for_dependencies'])]
     text = '\n'.join(out)
     path = os.path.join(outdir, 'SchedulerFns.v')
     if not os.path.exists(path) or open(path).read() != text:
